@@ -5,13 +5,13 @@ go 1.23.0
 require (
 	github.com/klauspost/compress v1.18.2
 	github.com/moby/go-archive v0.0.0
+	github.com/moby/patternmatcher v0.6.0
 	github.com/moby/sys/user v0.4.0
 	golang.org/x/sys v0.31.0
 )
 
 require (
 	github.com/containerd/log v0.1.0 // indirect
-	github.com/moby/patternmatcher v0.6.0 // indirect
 	github.com/moby/sys/mount v0.3.4 // indirect
 	github.com/moby/sys/mountinfo v0.7.2 // indirect
 	github.com/moby/sys/sequential v0.6.0 // indirect
